@@ -572,7 +572,15 @@ fn compare_builds(
                 return "cse/assign-bound-variable-unbound-after-lifting".to_string();
             }
             if c.1 {
-                let names = case.map(|cs| all_names(&cs.prog)).unwrap_or_default();
+                // shipped programs: the names of the program's own parameters (4+ characters, so that a short name
+                // cannot coincide with a legitimate small value)
+                let names = case.map(|cs| all_names(&cs.prog)).unwrap_or_else(|| {
+                    let mut v = vec![];
+                    if let Some(p) = crate::parsemc::mod_params(text_for(s).as_bytes()) {
+                        p.names(&mut v);
+                    }
+                    v.into_iter().filter(|n| n.len() >= 4).collect()
+                });
                 let leaked_value = matches!(got, Some(Out::Val(v)) if leaks_a_name(v, &names) || case.map(|cs| equals_reference_on_names(&cs.prog, v)).unwrap_or(false));
                 let leaked_code = code.map(|c| leaks_a_name(c, &names)).unwrap_or(false);
                 if leaked_value || leaked_code {
@@ -782,7 +790,9 @@ pub fn c02(thorough: bool, replay: Option<String>) -> i32 {
         }
     }
     let n = cases.len() as u64;
-    let (mut st, capped) = par_range(n, 4, cap, || (), |_, st, i| {
+    // diagnostic only (never set by a registered command): shorten the wall cap of the generated sub-space
+    let gen_cap = std::env::var("VERIF_DIAG_GENERATED_CAP_SECS").ok().and_then(|v| v.parse::<u64>().ok()).map(Duration::from_secs).or(cap);
+    let (mut st, capped) = par_range(n, 4, gen_cap, || (), |_, st, i| {
         st.count(&format!("family:{}", cases[i as usize].tags[0].split('/').next().unwrap_or("")), 1);
         check_c02_generated(st, &cases[i as usize], "generated")
     });
